@@ -540,6 +540,26 @@ theorem decodeParts_eq (data : List Nat) (raw : Bool) :
     · rename_i heq2; injection heq2 with heq2; exact absurd heq2 h2
     · cases heq; rfl
 
+/-- `decode_parts` when neither a macro nor an FNC1 codeword leads the data -/
+theorem partsBody_plain (raw : Bool) (d1 : List Nat) (h : ∀ t, d1 ≠ 232 :: t) :
+    partsBody raw [] d1 0 false =
+      match mainLoop (2 * d1.length + 2) .ascii { rest := d1, eaten := 0, out := [], ecis := [] } with
+      | .error e => .error e
+      | .ok st => .ok { output := st.out, ecis := st.ecis, fnc1 := false } := by
+  unfold partsBody
+  match d1, h with
+  | [], _ => simp
+  | c :: t, h =>
+    have hc : c ≠ 232 := fun hc => h t (by rw [hc])
+    have hmatch : (match c :: t with
+        | 232 :: t' => (true, t', 0 + 1)
+        | _ => (false, c :: t, 0) : Bool × List Nat × Nat) = (false, c :: t, 0) := by
+      split
+      · rename_i heq; injection heq with heq; exact absurd heq hc
+      · rfl
+    simp only [hmatch]
+    simp
+
 theorem partsBody_inv (raw : Bool) (out0 d1 : List Nat) (e1 : Nat) (mac : Bool) (p : Parts)
     (hd1 : ByteList d1) (ho : ByteList out0) (h : partsBody raw out0 d1 e1 mac = .ok p) : OutInv p.output p.ecis := by
   have hinv0 : OutInv out0 (if (!raw && mac) = true then [(0, 26), (out0.length, 0)] else []) := by
